@@ -33,7 +33,10 @@ GCFLAGS = ['DEBUG_UNCOLLECTABLE', 'DEBUG_SAVEALL', 'DEBUG_LEAK']
 ABORTS = ['normal', 'failing', 'testSetUp-raises', 'testTearDown-raises', 'both-hooks-raise',
           'kbd-test', 'kbd-layer-hook', 'stop-on-error', 'post-mortem',
           # runs that return without a test phase: listing only / refused by the option check
-          'list-only', 'options-fail']
+          'list-only', 'options-fail',
+          # -j N whose children die / cannot be started / deliver half a report: the parent's
+          # worker threads report that while the main loop prints (pre-empted line by line)
+          'children-fail']
 
 
 def gen(seed):
@@ -95,6 +98,21 @@ def gen(seed):
     elif abort == 'stop-on-error' and tests:
         plan += C.gen_test_faults(rng, disc, 1, excs=['AssertionError', 'ValueError'], p_occ=0)
         cfg['x'] = True
+    elif abort == 'children-fail':
+        sel = sorted(m.select({})) or [W.UNIT]
+        cfg['j'] = rng.randint(2, 3)
+        for lf in sel:
+            k = rng.random()
+            if k < 0.3:
+                plan.append({'site': 'channel', 'ident': lf, 'a': 'spawn_fail',
+                             'errno': rng.choice(['ENOMEM', 'EAGAIN']), 'exc': 'OSError'})
+            elif k < 0.65:
+                plan.append({'site': 'channel', 'ident': lf, 'a': 'truncate_report',
+                             'at': rng.randint(0, 40)})
+            else:
+                plan.append({'site': 'channel', 'ident': lf, 'a': 'kill_after',
+                             'n': rng.randint(0, 60), 'drop_unflushed': rng.random() < 0.5})
+        cfg['line_preempt'] = rng.choice([0.1, 0.3, 0.5])
     elif abort == 'list-only':
         cfg['list'] = True
     elif abort == 'options-fail':
@@ -148,8 +166,12 @@ def gen(seed):
         # coverage measurement): that is what must be installed again afterwards.  (Not with
         # -D: pdb's `continue` removes the trace function itself; not with tests that do.)
         cfg['pre_trace'] = True
+    knobs = {}
+    if cfg.get('j'):
+        opt['j'] = cfg['j']
+        knobs['line_preempt'] = cfg['line_preempt']
     return {'property': ID, 'seed': seed, 'world': world, 'plan': _ws.order_plan(plan),
-            'opt': opt, 'cfg': cfg, 'abort': abort, 'sched': {'prng': seed}, 'knobs': {}}
+            'opt': opt, 'cfg': cfg, 'abort': abort, 'sched': {'prng': seed}, 'knobs': knobs}
 
 
 def snapshot():
